@@ -21,8 +21,7 @@ theorem C04_il_increasing (h1 : InE v1 Dp d eps nu rhol rhos Cv) (h2 : InE v2 Dp
   have hD := h1.Dp_pos; have hn := h1.nu_pos
   have t1 : 2320 < homogeneous.pipe_reynolds_number v1 Dp nu := lt_of_lt_of_le (by norm_num) h1.reynolds_ge
   have t2 : 2320 < homogeneous.pipe_reynolds_number v2 Dp nu := lt_of_lt_of_le (by norm_num) h2.reynolds_ge
-  unfold homogeneous.fluid_head_loss
-  simp only [Transc.npow, sci_two]
+  rw [fluid_head_loss_canon, fluid_head_loss_canon]
   rw [swamee_jain_as_Lv v1 Dp eps nu h1.vls_pos hD hn t1, swamee_jain_as_Lv v2 Dp eps nu h2.vls_pos hD hn t2]
   set c1 := eps / (3.7 * Dp)
   set k := 5.75 * (nu / Dp) ^ (0.9:ℝ)
